@@ -95,7 +95,7 @@ class CtxWorld(World):
     STUB = ["sockets/selector (in-memory) with recording middlebox", "threads (baton scheduler, line pre-emption in handleRequest)",
             "time (virtual clock)", "uuid4 (seeded)"]
     PROBES = ["raise_after_set", "oneway_mutate", "worker_reuse", "handshake_after_raise", "batch", "ping", "prop",
-              "assign_idiom", "mutate_idiom", "multiplex", "thread", "preempted", "pool_full_retry", "oneway_delayed", "reply_reset_then_reconnect"]
+              "assign_idiom", "mutate_idiom", "multiplex", "thread", "preempted", "pool_full_retry", "oneway_delayed", "reply_reset_then_reconnect", "bad_handshake"]
     RULE = ("plan = (server type, pool size 1-2, serializer, 2-3 clients x 1-2 sessions x 1-5 calls of kinds "
             "ret/boom/ow/plain/batch/prop/ping, each with a unique annotation key set by assignment or mutation, "
             "pre-emption probabilities); distinct = distinct interleaving digest; non-trivial = at least two clients' "
@@ -126,7 +126,11 @@ class CtxWorld(World):
             sessions = []
             for _ in range(rng.randint(1, 2)):
                 sessions.append([call() for _ in range(rng.randint(1, 5))])
-            clients.append({"sessions": sessions, "corr": rng.random() < 0.6, "start": rng.choice([0, 0, 0.01, 0.05])})
+            bad = None
+            if rng.random() < 0.35:
+                # a handshake that fails while the daemon is still receiving the connect message, right after a session
+                bad = {"before": rng.randint(1, len(sessions)), "kind": rng.choice(["wrongtype", "badversion", "oversize", "annmismatch"])}
+            clients.append({"sessions": sessions, "corr": rng.random() < 0.6, "start": rng.choice([0, 0, 0.01, 0.05]), "bad_hs": bad})
         return {"servertype": servertype, "pool": [1, rng.randint(1, 2)], "serializer": rng.choice(SERIALIZERS),
                 "clients": clients, "p_line": rng.choice([0.0, 0.01, 0.03]) if servertype == "thread" else 0.0,
                 "p_block": rng.choice([0.0, 0.3, 0.7, 1.0]), "net": {"shuffle_select": rng.random() < 0.5}}
@@ -163,6 +167,7 @@ class CtxWorld(World):
         install_script(net, c2s, s2c)
 
         daemon = SV.Daemon(host="127.0.0.1", port=0)
+        addr = daemon.transportServer.sock.getsockname()
         obj = CtxObj(sched)
         uri = daemon.register(obj, "o")
         loop = threading.Thread(target=daemon.requestLoop, name="daemon-loop")
@@ -175,10 +180,42 @@ class CtxWorld(World):
             crng_n[0] += 1
             return uuid.UUID(int=(plan["seed"] * 1000003 + crng_n[0]) & ((1 << 128) - 1), version=4)
 
+        def bad_handshake(kind):
+            import marshal
+            body = marshal.dumps({"handshake": "hello", "object": "o"})
+            kw = {}
+            typ = N.MSG_CONNECT
+            if kind == "wrongtype":
+                typ = N.MSG_INVOKE
+            elif kind == "badversion":
+                kw["version"] = 503
+            elif kind == "oversize":
+                kw["dlen"] = 0x7fffffff
+            elif kind == "annmismatch":
+                kw["alen"] = 1
+            sk = None
+            try:
+                sk = net.connect_raw(addr, timeout=5.0)
+                sk.sendall(N.build_message(typ, 0, 0, N.SER_MARSHAL, body, **kw))
+                while sk.recv(4096):
+                    pass
+            except OSError:
+                pass
+            finally:
+                if sk is not None:
+                    sk.close()      # always leave: a peer that stays for ever blocks a timeout-less multiplex server by design
+            ctx.probe("bad_handshake")
+            ctx.fault("bad_handshake:" + kind)
+
         def client(ci, cspec):
             if cspec["start"]:
                 sched.sleep(cspec["start"])
-            for si, sess in enumerate(cspec["sessions"]):
+            bad = cspec.get("bad_hs")
+            for si, sess in enumerate(list(cspec["sessions"]) + [None]):
+                if bad and bad["before"] == si:
+                    bad_handshake(bad["kind"])
+                if sess is None:
+                    break
                 p = None
                 for attempt in range(400):
                     try:
